@@ -314,7 +314,7 @@ int main(int argc, char **argv) {
     std::string only = opt.extra.count("only") ? opt.extra["only"] : "";
     auto want = [&](const char *p) { return only.empty() || only == p; };
     // part 1: sub 0..: static classes
-    const int NSUB = 14;
+    const int NSUB = 16;
     if (want("reserved")) for (int sub = 0; sub < NSUB; ++sub) for (int len = 1; len <= N; ++len) for (int p = 0; p < 3; ++p) for (int f = 0; f < 10; ++f) tasks.push_back({1, sub, p, len, f});
     if (want("reserved_large")) for (int sub = 0; sub < 6; ++sub) tasks.push_back({7, sub, 0, 0, 0});
     if (want("base")) tasks.push_back({2, 0, 0, 0, 0});
@@ -345,6 +345,8 @@ int main(int argc, char **argv) {
                     struct G { std::function<void()> f; ~G() { f(); } } g{cleanup};
                     FILE *f = fopen(raw.c_str(), "wb"); fwrite(d.data(), sizeof(uint32_t), d.size(), f); fclose(f);
                     pgm::MappedPGMIndex<uint32_t, 2, 0> x(raw, f1); }); break;
+                case 14: reserved_static<double>(c, "Compressed<f64,1,1>", t.palette, t.len, t.first, [](const std::vector<double> &d) { pgm::CompressedPGMIndex<double, 1, 1> x(d.begin(), d.end()); }); break;
+                case 15: reserved_static<float>(c, "Compressed<f32,2,0>", t.palette, t.len, t.first, [](const std::vector<float> &d) { pgm::CompressedPGMIndex<float, 2, 0> x(d.begin(), d.end()); }); break;
                 case 10: reserved_c<int32_t>(c, "int32", t.palette, t.len, t.first, pgm_index_int32_create, pgm_index_int32_destroy); break;
                 case 11: reserved_c<int64_t>(c, "int64", t.palette, t.len, t.first, pgm_index_int64_create, pgm_index_int64_destroy); break;
                 case 12: reserved_c<uint32_t>(c, "uint32", t.palette, t.len, t.first, pgm_index_uint32_create, pgm_index_uint32_destroy); break;
